@@ -29,6 +29,7 @@ import (
 	"path/filepath"
 	"strings"
 	"sync"
+	"sync/atomic"
 	"time"
 
 	scalibr "github.com/google/osv-scalibr"
@@ -118,6 +119,7 @@ type scanCfg struct {
 	nDet      int
 	paths     []string // PathsToExtract (explicit-path mode of the walker)
 	symlinks  bool     // ReadSymlinks
+	deadline  bool     // the context ends with DeadlineExceeded instead of Canceled
 	git       bool     // UseGitignore (the walker keeps a per-directory stack that every exit path must leave balanced)
 	// cancelAt: index into the event log at which the context is cancelled (-1 never, -2 before Scan)
 	cancelAt int
@@ -130,10 +132,35 @@ type scanOut struct {
 	panicked string
 }
 
+// expiredCtx is a context that ends the way a deadline does: when fired, Done is closed and Err
+// reports context.DeadlineExceeded (a plain cancel() reports context.Canceled).
+type expiredCtx struct {
+	context.Context
+	done  chan struct{}
+	fired atomic.Bool
+}
+
+func (c *expiredCtx) Done() <-chan struct{} { return c.done }
+func (c *expiredCtx) Err() error {
+	if c.fired.Load() {
+		return context.DeadlineExceeded
+	}
+	return nil
+}
+func (c *expiredCtx) fire() {
+	if c.fired.CompareAndSwap(false, true) {
+		close(c.done)
+	}
+}
+
 func runScan(c scanCfg) scanOut {
 	var out scanOut
 	ctx, cancel := context.WithCancel(context.Background())
 	defer cancel()
+	if c.deadline {
+		ec := &expiredCtx{Context: context.Background(), done: make(chan struct{})}
+		ctx, cancel = ec, ec.fire
+	}
 	rec := func(e event) {
 		out.events = append(out.events, e)
 		if c.cancelAt >= 0 && len(out.events)-1 == c.cancelAt {
@@ -366,11 +393,14 @@ func main() {
 				st, det int
 				paths   bool
 				git     bool
-			}{{0, 0, false, false}, {1, 1, false, false}, {2, 2, false, false}, {1, 1, true, false}, {0, 0, false, true}, {1, 1, true, true}, {2, 0, false, false}, {0, 2, false, false}} {
+				dl      bool
+			}{{0, 0, false, false, false}, {1, 1, false, false, false}, {2, 2, false, false, false}, {1, 1, true, false, false}, {0, 0, false, true, false}, {1, 1, true, true, false}, {2, 0, false, false, false}, {0, 2, false, false, false},
+				// the same with a context that expires (DeadlineExceeded) instead of being cancelled
+				{2, 2, false, false, true}, {1, 1, true, true, true}} {
 				if pl.paths && len(reqPaths) == 0 {
 					continue
 				}
-				base := scanCfg{roots: []*memfs.Node{root}, cancelAt: -1, twoEx: true, nStand: pl.st, nDet: pl.det, git: pl.git}
+				base := scanCfg{roots: []*memfs.Node{root}, cancelAt: -1, twoEx: true, nStand: pl.st, nDet: pl.det, git: pl.git, deadline: pl.dl}
 				if pl.paths {
 					base.paths = reqPaths
 				}
@@ -384,7 +414,7 @@ func main() {
 					c.cancelAt = at
 					o := runScan(c)
 					r.Evals.Add(1)
-					rp := map[string]any{"tree": ts, "standalone": pl.st, "detectors": pl.det, "cancel_at_event": at, "paths_to_extract": base.paths, "use_gitignore": pl.git}
+					rp := map[string]any{"tree": ts, "standalone": pl.st, "detectors": pl.det, "cancel_at_event": at, "paths_to_extract": base.paths, "use_gitignore": pl.git, "deadline_expiry": pl.dl}
 					if o.panicked != "" {
 						r.Violation("panic:"+o.panicked, o.panicked, rp)
 						continue
@@ -483,7 +513,7 @@ func main() {
 	imagePart(r)
 	containerLimits(r)
 	hugeSizes(r)
-	r.Finish(fmt.Sprintf("every tree with <=%d nodes (dirs a,b; p1.txt size 1, p2.txt size 5 required by two extractors, junk): (A) every MaxInodes in 0..n+1 with 1 and 2 roots, gitignore handling off and on; (B) MaxFileSize in {0,1,s-1,s,s+1} for every file size s, and through a symlink to the 5-byte file with ReadSymlinks on; (B'') Stat sizes 2^31-1..2^63-1 x limits around the same boundaries; (C) cancellation at every event of the uncancelled run (inode visit, Extract, AfterExtractorRun, standalone extractor, detector; and before Scan) for 0/1/2 standalone extractors and detectors (also two standalone extractors without detectors and two detectors without standalone extractors), whole-tree walk and explicit-path mode (first directory + first required file requested), gitignore handling off and on; (D') container scans of 2-3 layers holding a package list with sizes L-1, L, L+1, 3L per layer: no extraction the scan causes (incl. layer attribution) receives a file over MaxFileSize; (D) images: file size L-1,L,L+1 x MaxFileBytes L in {1,2,5,4096} x layer position x older version underneath. non-trivial = limit actually hit / work actually cut", maxNodes), complete)
+	r.Finish(fmt.Sprintf("every tree with <=%d nodes (dirs a,b; p1.txt size 1, p2.txt size 5 required by two extractors, junk): (A) every MaxInodes in 0..n+1 with 1 and 2 roots, gitignore handling off and on; (B) MaxFileSize in {0,1,s-1,s,s+1} for every file size s, and through a symlink to the 5-byte file with ReadSymlinks on; (B'') Stat sizes 2^31-1..2^63-1 x limits around the same boundaries; (C) cancellation at every event of the uncancelled run (inode visit, Extract, AfterExtractorRun, standalone extractor, detector; and before Scan) for 0/1/2 standalone extractors and detectors (also two standalone extractors without detectors and two detectors without standalone extractors), whole-tree walk and explicit-path mode (first directory + first required file requested), gitignore handling off and on, context cancelled or expired (DeadlineExceeded); (D') container scans of 2-3 layers holding a package list with sizes L-1, L, L+1, 3L per layer: no extraction the scan causes (incl. layer attribution) receives a file over MaxFileSize; (D) images: file size L-1,L,L+1 x MaxFileBytes L in {1,2,5,4096} x layer position x older version underneath. non-trivial = limit actually hit / work actually cut", maxNodes), complete)
 }
 
 // hugeSizes: (B”) file sizes around the 32-bit and 63-bit boundaries (reported by Stat; the
